@@ -310,6 +310,9 @@ def run(chk):
     _unary_rule(chk, prog, boot)
     _spliceform_rule(chk, prog)
     _cmpnum_rule(chk, prog)
+    # (= nil x) / (not= nil x) compiled inline by `if` / `while` must agree with the functions = and not=
+    from rules.c02 import _nilfold_rule
+    _nilfold_rule(chk, prog, rule="C15-NILFOLD")
 
 
 def _jumppair_rule(chk, prog):
